@@ -2,6 +2,8 @@
 From NL.Model Require Import Pipeline.
 From NL.Spec Require Import ScopeSpec Sem Fragment Fragment2 Fragment3.
 From NL.Proofs Require SymbolsProofs CompilerNames CompileCorrectI.
+From NL.Spec Require Import Sem Fragment Fragment2 Fragment2h Fragment3 Fragment4.
+From NL.Proofs Require CompileCorrectJ9 CompileCorrectJ10.
 Local Open Scope nat_scope.
 
 (* resolve IS the documented lookup: last occurrence in the flattened current context (innermost scope first, latest declaration first), then the global context - for every table, no hypothesis *)
@@ -100,6 +102,10 @@ Proof. exact CompileCorrectI.compile_correct_F3. Qed.
 Theorem static_accepts_F3 : forall (p : block) (bc : bytecode) (fuel : nat), in_F3 p = true -> compile p = Ok bc -> (size3_b p <= fuel)%nat -> static_check fuel p = None.
 Proof. exact CompileCorrectI.static_accepts_F3. Qed.
 
+(* SOURCE level, WHOLE language outside the exclusions of DESIGN 4.3 (functions, heap values, builtins together, collector running): the compiled program computes exactly what the definitional semantics assigns to the tree - which decides this property for every such program of the model *)
+Theorem compile_correct_F4 : forall (orc : oracle) (p : block), in_F4 p = true -> ends_expr p = true -> lits_exact (lits_b p) -> forall bc : bytecode, compile p = Ok bc -> forall fuel : nat, (size3_b p <= fuel)%nat -> sem_program orc fuel p <> SemFuel -> sem_small orc fuel p (length (b_constants bc)) -> (exists budget : nat, obs_eq4 (run_program orc bc budget) (sem_program orc fuel p)) \/ hits_excluded4 (CompileCorrectJ5.fun_table p) orc bc.
+Proof. exact CompileCorrectJ9.compile_correct_F4. Qed.
+
 Example nonvacuous : wf_tab symtab_new /\ body [OpDefine [120%N]; OpEnter; OpDefine [121%N]; OpNewCtx; OpDefine [97%N]; OpLeaveCtx; OpLeave; OpDefine [121%N]].
 Proof. split; [exact SymbolsProofs.wf_symtab_new | exact SymbolsProofs.ex_body]. Qed.
 Print Assumptions resolve_refines_lookup_all.
@@ -126,3 +132,4 @@ Print Assumptions undeclared_never_runs.
 Print Assumptions reference_error_exact.
 Print Assumptions compile_correct_F3.
 Print Assumptions static_accepts_F3.
+Print Assumptions compile_correct_F4.
